@@ -84,6 +84,54 @@ def _tables_from_source(repo):
             out[f"{sign}_pow10_{w}"] = [int(v, 16) for v in vals]
     return out
 
+def _inventory(repo, builddir):
+    """objects with static storage duration defined by the library: (a) symbols of an object file that instantiates
+    the library broadly, with the section they live in; (b) declarations in the source text. Returns list of
+    (description, writable)"""
+    import glob
+    here = os.path.dirname(os.path.dirname(os.path.abspath(__file__)))
+    inv = []
+    objs = []
+    for src in ("inventory_probe.cpp", "text_h.cpp", "num_h.cpp"):
+        obj = os.path.join(builddir, "inv_" + src.replace(".cpp", ".o"))
+        p = subprocess.run(f"g++ -std=c++17 -O0 -w -c -I{repo}/src -I{here}/harness {here}/harness/{src} -o {obj}", shell=True,
+                           stdout=subprocess.PIPE, stderr=subprocess.STDOUT, text=True, timeout=300)
+        if p.returncode != 0:
+            raise RuntimeError("UNSUPPORTED inventory probe does not compile: " + p.stdout[-1500:])
+        objs.append(obj)
+    seen = set()
+    for obj in objs:
+        out = subprocess.run(["objdump", "-t", "-C", obj], stdout=subprocess.PIPE, text=True, timeout=120).stdout
+        for line in out.split("\n"):
+            m = re.match(r"^[0-9a-f]+\s+(.{7})\s+(\S+)\s+[0-9a-f]+\s+(.*)$", line)
+            if not m:
+                continue
+            flags, section, name = m.groups()
+            if "O" not in flags or "ArduinoJson" not in name:
+                continue
+            name = re.sub(r"V[0-9][0-9A-Z]{3,}::", "", name).replace(".hidden ", "").strip()
+            sec = section.split("._Z")[0]
+            writable = sec.startswith((".bss", ".data", ".tbss", ".tdata")) and not sec.startswith(".data.rel.ro")
+            if (name, writable) not in seen:
+                seen.add((name, writable))
+                inv.append((name, writable))
+    # (b) declarations in the source text that introduce static storage (function-level or class-level `static`
+    # data, thread_local, namespace-scope variables, `mutable` members)
+    pat_static = re.compile(r"^\s*static\s+(?!inline\b|const\b|constexpr\b|_assert)[\w:<>,\s\*&]+?\b(\w+)\s*(\[[^\]]*\])?\s*(=[^;]*)?;")
+    pat_tl = re.compile(r"\bthread_local\b")
+    pat_mut = re.compile(r"^\s*mutable\b")
+    for path in sorted(glob.glob(os.path.join(repo, "src", "**", "*.hpp"), recursive=True)):
+        rel = os.path.relpath(path, repo)
+        for ln, line in enumerate(open(path, errors="replace"), 1):
+            code = line.split("//")[0]
+            if "(" in code.split("=")[0] and ")" in code:
+                continue            # a function declaration
+            if pat_static.match(code) or pat_tl.search(code) or pat_mut.match(code):
+                # `T const name[...]` / `T const name =` / constexpr: immutable
+                const = bool(re.search(r"\bconst\s+\w+\s*(\[|=|;)", code)) or "constexpr" in code
+                inv.append((f"{rel}: {code.strip()[:80]}", not const))
+    return inv
+
 def _zlist(vals):
     return "[" + "; ".join(str(v) for v in vals) + "]"
 
@@ -93,7 +141,9 @@ def run(repo, gendir, builddir):
     log = []
     try:
         import vlib
-        key = hashlib.sha256((vlib.repo_hash() + PROBE + open(__file__).read()).encode()).hexdigest()[:16]
+        here = os.path.dirname(os.path.dirname(os.path.abspath(__file__)))
+        extra = "".join(open(os.path.join(here, "harness", f)).read() for f in ("inventory_probe.cpp", "text_h.cpp", "num_h.cpp", "common.hpp"))
+        key = hashlib.sha256((vlib.repo_hash() + PROBE + open(__file__).read() + extra).encode()).hexdigest()[:16]
         stamp = os.path.join(builddir, "gen-" + key + ".json")
         if os.path.exists(stamp):
             import json
@@ -146,14 +196,21 @@ def run(repo, gendir, builddir):
             if f[0] == "CONST":
                 C.append(f"Definition gen_{f[1]} : Z := {f[2]}.")
         new_cfg = "\n".join(C) + "\n"
-        for name, content in (("Tables.v", new_tables), ("Config.v", new_cfg)):
+        inv = _inventory(repo, builddir)
+        G = ["(* GENERATED by tools/translate.py from /repo — do not edit *)",
+             "From Coq Require Import String List Bool.", "Import ListNotations.", "Local Open Scope string_scope.", "",
+             "(* every object with static storage duration the library defines: (symbol or declaration, writable) *)",
+             "Definition gen_inventory : list (string * bool) :=",
+             "  [" + ";\n   ".join('("%s", %s)' % (n.replace('"', "'"), "true" if w else "false") for n, w in inv) + "]."]
+        new_glob = "\n".join(G) + "\n"
+        for name, content in (("Tables.v", new_tables), ("Config.v", new_cfg), ("Globals.v", new_glob)):
             p = os.path.join(gendir, name)
             old = open(p).read() if os.path.exists(p) else None
             if old != content:
                 open(p, "w").write(content)
                 log.append(f"translator: {name} rewritten")
         import json
-        json.dump({"Tables.v": new_tables, "Config.v": new_cfg}, open(stamp, "w"))
+        json.dump({"Tables.v": new_tables, "Config.v": new_cfg, "Globals.v": new_glob}, open(stamp, "w"))
         return True, "\n".join(log) + "\n"
     except Exception as e:  # noqa
         return False, f"UNSUPPORTED translator error: {e!r}\n"
